@@ -393,22 +393,193 @@ pub proof fn lemma_map_complete_batched<K, T, S: Store<T>>(m0: Map<K, S>, m1: Ma
         if !m1.contains_key(k) { let v1 = choose|v1: S| #[trigger] batched_rel(m0[k], v1, ids) && v1.cnt() == 0; assert(v1.holds(x)); }
     }
 }
-// R8 outline, ASSUMED contract (trusted, listed): the statement
-//     <map>.retain(|_, matcher| { if let Some(value) = matcher.remove(id) { removed = Some(value); } !matcher.is_empty() });
-// assigns a captured local inside the closure, which Verus does not support. Summary: remove(id) is applied to every bucket, only a bucket
-// that is empty afterwards is dropped, and `removed` receives the route returned by one of these calls if any returned one.
-#[verifier::external_body]
-pub fn outl_retain_remove<K, T>(m: &mut HashMap<K, Sub<T>>, id: &str, removed: &mut Option<RouteRef<T>>)
-    requires map_wf(old(m)@),
-    ensures entries_removed(old(m)@, final(m)@, id@),
-        // `removed` is overwritten by every bucket that returns a route, and left alone otherwise
-        map_holds_id(old(m)@, id@) ==> (*final(removed) matches Some(x) && rid(*x) == id@ && map_holds(old(m)@, x)),
-        !map_holds_id(old(m)@, id@) ==> *final(removed) == *old(removed),
-{
-    /* verbatim: self.schemes.retain(|_, matcher| { if let Some(value) = matcher.remove(id) { removed = Some(value); } !matcher.is_empty() }); | self.static_hosts.retain(|_, matcher| { if let Some(value) = matcher.remove(id) { removed = Some(value); } !matcher.is_empty() }); | self.matchers.retain(|_, matcher| { if let Some(value) = matcher.remove(id) { removed = Some(value); } !matcher.is_empty() }); | self.methods.retain(|_, matcher| { if let Some(value) = matcher.remove(id) { removed = Some(value); } !matcher.is_empty() }); | self.exclude_methods.retain(|_, matcher| { if let Some(value) = matcher.remove(id) { removed = Some(value); } !matcher.is_empty() }); */
-    unimplemented!()
+// ---- R13: `map.retain(closure)` where the closure updates ONE captured local. Verus does not support closures assigning captured locals; the
+// generator passes the local as an explicit `&mut` parameter (lambda lifting) and routes the call through vf_retain_st, whose body is the
+// original `m.retain(..)` applied to the lifted closure. ASSUMED (trusted, listed): retain visits every entry exactly once, in some order,
+// threading the state through the calls; an entry is dropped iff the closure returned false, else it keeps the value left behind the &mut.
+pub open spec fn chain<K, V, St>(m0: Map<K, V>, m1: Map<K, V>, s0: St, s1: St, post: spec_fn(K, V, V, St, St, bool) -> bool) -> bool {
+    exists|order: Seq<K>, states: Seq<St>, vals: Seq<V>, keeps: Seq<bool>| chain_w(m0, m1, s0, s1, post, order, states, vals, keeps)
 }
-
+pub open spec fn chain_w<K, V, St>(m0: Map<K, V>, m1: Map<K, V>, s0: St, s1: St, post: spec_fn(K, V, V, St, St, bool) -> bool, order: Seq<K>, states: Seq<St>, vals: Seq<V>, keeps: Seq<bool>) -> bool {
+    &&& order.no_duplicates() && (forall|k: K| m0.contains_key(k) <==> #[trigger] order.contains(k))
+    &&& states.len() == order.len() + 1 && vals.len() == order.len() && keeps.len() == order.len()
+    &&& states[0] == s0 && states[order.len() as int] == s1
+    &&& forall|i: int| 0 <= i < order.len() ==> post(#[trigger] order[i], m0[order[i]], vals[i], states[i], states[i + 1], keeps[i])
+    &&& forall|i: int| 0 <= i < order.len() ==> (keeps[i] ==> m1.contains_key(#[trigger] order[i]) && m1[order[i]] == vals[i])
+    &&& forall|i: int| 0 <= i < order.len() ==> (!keeps[i] ==> !m1.contains_key(#[trigger] order[i]))
+    &&& forall|k: K| #[trigger] m1.contains_key(k) ==> m0.contains_key(k)
+}
+#[verifier::external_body]
+pub fn vf_retain_st<K, V, St, F: FnMut(&K, &mut V, &mut St) -> bool>(m: &mut HashMap<K, V>, st: &mut St, f: F, post: Ghost<spec_fn(K, V, V, St, St, bool) -> bool>)
+    requires forall|k: &K, v: &mut V, s: &mut St| old(m)@.contains_key(*k) && *v == old(m)@[*k] ==> #[trigger] f.requires((k, v, s)),
+        forall|k: &K, v: &mut V, s: &mut St, b: bool| old(m)@.contains_key(*k) && *v == old(m)@[*k] && #[trigger] f.ensures((k, v, s), b) ==> post@(*k, *v, *final(v), *s, *final(s), b),
+    ensures chain(old(m)@, final(m)@, *old(st), *final(st), post@),
+{ /* verbatim: RECV.retain(|k, v| f(k, v, &mut VAR)) */ let mut f = f; m.retain(|k, v| f(k, v, st)) }
+// what one step of the removal closures guarantees: the bucket went through remove(id); the state receives the returned route, if any
+pub open spec fn post_rm<K, T, S: Store<T>>(id: Seq<char>) -> spec_fn(K, S, S, Option<RouteRef<T>>, Option<RouteRef<T>>, bool) -> bool {
+    |k: K, v0: S, v1: S, s0: Option<RouteRef<T>>, s1: Option<RouteRef<T>>, b: bool|
+        v0.wf() ==> exists|r: Option<RouteRef<T>>| #[trigger] removed_rel(v0, v1, id, r) && s1 == (if r is Some { r } else { s0 }) && (!b ==> v1.cnt() == 0)
+}
+pub open spec fn seen_id<K, T, S: Store<T>>(m0: Map<K, S>, order: Seq<K>, n: int, id: Seq<char>) -> bool {
+    exists|j: int| 0 <= j < n && holds_id(m0[#[trigger] order[j]], id)
+}
+pub proof fn lemma_chain_state<K, T, S: Store<T>>(m0: Map<K, S>, m1: Map<K, S>, s0: Option<RouteRef<T>>, s1: Option<RouteRef<T>>, id: Seq<char>, order: Seq<K>, states: Seq<Option<RouteRef<T>>>, vals: Seq<S>, keeps: Seq<bool>, n: int)
+    requires chain_w(m0, m1, s0, s1, post_rm::<K, T, S>(id), order, states, vals, keeps), map_wf(m0), 0 <= n <= order.len(),
+    ensures seen_id(m0, order, n, id) ==> (states[n] matches Some(x) && rid(*x) == id && map_holds(m0, x)),
+        !seen_id(m0, order, n, id) ==> states[n] == s0,
+    decreases n,
+{
+    if n > 0 {
+        lemma_chain_state(m0, m1, s0, s1, id, order, states, vals, keeps, n - 1);
+        let k = order[n - 1];
+        assert(order.contains(k)); assert(m0.contains_key(k)); assert(m0[k].wf());
+        assert(post_rm::<K, T, S>(id)(order[n - 1], m0[order[n - 1]], vals[n - 1], states[n - 1], states[n - 1 + 1], keeps[n - 1]));
+        let r = choose|r: Option<RouteRef<T>>| #[trigger] removed_rel(m0[k], vals[n - 1], id, r) && states[n] == (if r is Some { r } else { states[n - 1] }) && (!keeps[n - 1] ==> vals[n - 1].cnt() == 0);
+        if r is Some { assert(m0[k].holds(r.unwrap())); assert(holds_id(m0[k], id)); assert(seen_id(m0, order, n, id)); assert(map_holds(m0, r.unwrap())); }
+        else {
+            assert(!holds_id(m0[k], id));
+            if seen_id(m0, order, n, id) { let j = choose|j: int| 0 <= j < n && holds_id(m0[#[trigger] order[j]], id); assert(j < n - 1); assert(seen_id(m0, order, n - 1, id)); }
+            if seen_id(m0, order, n - 1, id) { let j = choose|j: int| 0 <= j < n - 1 && holds_id(m0[#[trigger] order[j]], id); assert(0 <= j < n && holds_id(m0[order[j]], id)); }
+        }
+        if seen_id(m0, order, n - 1, id) { let j = choose|j: int| 0 <= j < n - 1 && holds_id(m0[#[trigger] order[j]], id); assert(0 <= j < n && holds_id(m0[order[j]], id)); }
+    }
+}
+// the summary the layer proofs use (formerly the ASSUMED contract of the outlined statement; now derived from the verified closure)
+pub proof fn lemma_chain_removed<K, T, S: Store<T>>(m0: Map<K, S>, m1: Map<K, S>, s0: Option<RouteRef<T>>, s1: Option<RouteRef<T>>, id: Seq<char>)
+    requires chain(m0, m1, s0, s1, post_rm::<K, T, S>(id)), map_wf(m0),
+    ensures entries_removed(m0, m1, id),
+        map_holds_id(m0, id) ==> (s1 matches Some(x) && rid(*x) == id && map_holds(m0, x)),
+        !map_holds_id(m0, id) ==> s1 == s0,
+{
+    let post = post_rm::<K, T, S>(id);
+    let (order, states, vals, keeps) = choose|order: Seq<K>, states: Seq<Option<RouteRef<T>>>, vals: Seq<S>, keeps: Seq<bool>| chain_w(m0, m1, s0, s1, post, order, states, vals, keeps);
+    let n = order.len() as int;
+    assert forall|k: K| #[trigger] m1.contains_key(k) implies m0.contains_key(k) && removed_rel2(m0[k], m1[k], id) by {
+        assert(order.contains(k)); let i = choose|i: int| 0 <= i < order.len() && order[i] == k;
+        assert(keeps[i]) by { if !keeps[i] { assert(!m1.contains_key(order[i])); } }
+        assert(m1.contains_key(order[i]) && m1[order[i]] == vals[i]);
+        assert(m0[k].wf());
+        assert(post(order[i], m0[order[i]], vals[i], states[i], states[i + 1], keeps[i]));
+        let r = choose|r: Option<RouteRef<T>>| #[trigger] removed_rel(m0[k], vals[i], id, r) && states[i + 1] == (if r is Some { r } else { states[i] }) && (!keeps[i] ==> vals[i].cnt() == 0);
+        if r is Some { assert(m0[k].holds(r.unwrap())); }
+    }
+    assert forall|k: K| m0.contains_key(k) && !#[trigger] m1.contains_key(k) implies exists|v1: S| #[trigger] removed_rel2(m0[k], v1, id) && v1.cnt() == 0 by {
+        assert(order.contains(k)); let i = choose|i: int| 0 <= i < order.len() && order[i] == k;
+        assert(!keeps[i]) by { if keeps[i] { assert(m1.contains_key(order[i])); } }
+        assert(m0[k].wf());
+        assert(post(order[i], m0[order[i]], vals[i], states[i], states[i + 1], keeps[i]));
+        let r = choose|r: Option<RouteRef<T>>| #[trigger] removed_rel(m0[k], vals[i], id, r) && states[i + 1] == (if r is Some { r } else { states[i] }) && (!keeps[i] ==> vals[i].cnt() == 0);
+        if r is Some { assert(m0[k].holds(r.unwrap())); }
+        assert(removed_rel2(m0[k], vals[i], id) && vals[i].cnt() == 0);
+    }
+    lemma_chain_state(m0, m1, s0, s1, id, order, states, vals, keeps, n);
+    if map_holds_id(m0, id) {
+        let (k, y) = choose|k: K, y: RouteRef<T>| m0.contains_key(k) && #[trigger] m0[k].holds(y) && rid(*y) == id;
+        assert(order.contains(k)); let i = choose|i: int| 0 <= i < order.len() && order[i] == k;
+        assert(holds_id(m0[order[i]], id)); assert(seen_id(m0, order, n, id));
+    }
+    if seen_id(m0, order, n, id) {
+        let j = choose|j: int| 0 <= j < n && holds_id(m0[#[trigger] order[j]], id);
+        assert(order.contains(order[j])); assert(m0.contains_key(order[j]));
+        let y = choose|y: RouteRef<T>| #[trigger] m0[order[j]].holds(y) && rid(*y) == id;
+        assert(map_holds_id(m0, id));
+    }
+}
+// TOLERANT variant for maps in which an id lives in at most one bucket: once the route was found the closure may leave the other buckets
+// alone (the early exit PathAndQueryMatcher::remove uses); skipping is harmless there, so it is allowed by the contract.
+pub open spec fn post_rm_t<K, T, S: Store<T>>(id: Seq<char>) -> spec_fn(K, S, S, Option<RouteRef<T>>, Option<RouteRef<T>>, bool) -> bool {
+    |k: K, v0: S, v1: S, s0: Option<RouteRef<T>>, s1: Option<RouteRef<T>>, b: bool|
+        v0.wf() ==> (s0 is Some && v1 == v0 && s1 == s0 && b)
+            || (exists|r: Option<RouteRef<T>>| #[trigger] removed_rel(v0, v1, id, r) && s1 == (if r is Some { r } else { s0 }) && (!b ==> v1.cnt() == 0))
+}
+pub open spec fn one_bucket<K, T, S: Store<T>>(m0: Map<K, S>, id: Seq<char>) -> bool {
+    forall|k1: K, k2: K| m0.contains_key(k1) && m0.contains_key(k2) && #[trigger] holds_id(m0[k1], id) && #[trigger] holds_id(m0[k2], id) ==> k1 == k2
+}
+pub open spec fn step_ok<K, T, S: Store<T>>(m0: Map<K, S>, order: Seq<K>, vals: Seq<S>, keeps: Seq<bool>, id: Seq<char>, i: int) -> bool {
+    removed_rel2(m0[order[i]], vals[i], id) && (!keeps[i] ==> vals[i].cnt() == 0)
+}
+pub proof fn lemma_chain_state_t<K, T, S: Store<T>>(m0: Map<K, S>, m1: Map<K, S>, s0: Option<RouteRef<T>>, s1: Option<RouteRef<T>>, id: Seq<char>, order: Seq<K>, states: Seq<Option<RouteRef<T>>>, vals: Seq<S>, keeps: Seq<bool>, n: int)
+    requires chain_w(m0, m1, s0, s1, post_rm_t::<K, T, S>(id), order, states, vals, keeps), map_wf(m0), one_bucket(m0, id), 0 <= n <= order.len(),
+        s0 is Some ==> !map_holds_id(m0, id),
+    ensures seen_id(m0, order, n, id) ==> (states[n] matches Some(x) && rid(*x) == id && map_holds(m0, x)),
+        !seen_id(m0, order, n, id) ==> states[n] == s0,
+        // every step so far acted as remove(id) on its bucket (a skipped bucket does not hold the id)
+        forall|i: int| 0 <= i < n ==> #[trigger] step_ok(m0, order, vals, keeps, id, i),
+    decreases n,
+{
+    if n > 0 {
+        lemma_chain_state_t(m0, m1, s0, s1, id, order, states, vals, keeps, n - 1);
+        let k = order[n - 1];
+        assert(order.contains(k)); assert(m0.contains_key(k)); assert(m0[k].wf());
+        assert(post_rm_t::<K, T, S>(id)(order[n - 1], m0[order[n - 1]], vals[n - 1], states[n - 1], states[n - 1 + 1], keeps[n - 1]));
+        if states[n - 1] is Some && vals[n - 1] == m0[k] && states[n] == states[n - 1] && keeps[n - 1] {
+            // skipped: the id was found in an earlier bucket (or before this map was visited), so this bucket does not hold it
+            if seen_id(m0, order, n - 1, id) {
+                let j = choose|j: int| 0 <= j < n - 1 && holds_id(m0[#[trigger] order[j]], id);
+                assert(order.contains(order[j])); assert(m0.contains_key(order[j]));
+                assert(!holds_id(m0[k], id)) by { if holds_id(m0[k], id) { assert(order[j] == k); assert(order[j] == order[n - 1]); } }
+                assert(0 <= j < n && holds_id(m0[order[j]], id));
+                assert(seen_id(m0, order, n, id));
+            } else {
+                assert(s0 is Some);
+                assert(!holds_id(m0[k], id)) by { if holds_id(m0[k], id) { let y = choose|y: RouteRef<T>| #[trigger] m0[k].holds(y) && rid(*y) == id; assert(map_holds_id(m0, id)); } }
+                if seen_id(m0, order, n, id) { let j = choose|j: int| 0 <= j < n && holds_id(m0[#[trigger] order[j]], id); assert(j < n - 1); assert(seen_id(m0, order, n - 1, id)); }
+            }
+            assert(removed_rel2(m0[k], vals[n - 1], id));
+        } else {
+            let r = choose|r: Option<RouteRef<T>>| #[trigger] removed_rel(m0[k], vals[n - 1], id, r) && states[n] == (if r is Some { r } else { states[n - 1] }) && (!keeps[n - 1] ==> vals[n - 1].cnt() == 0);
+            if r is Some { assert(m0[k].holds(r.unwrap())); assert(holds_id(m0[k], id)); assert(seen_id(m0, order, n, id)); assert(map_holds(m0, r.unwrap())); }
+            else {
+                assert(!holds_id(m0[k], id));
+                if seen_id(m0, order, n, id) { let j = choose|j: int| 0 <= j < n && holds_id(m0[#[trigger] order[j]], id); assert(j < n - 1); assert(seen_id(m0, order, n - 1, id)); }
+            }
+            if seen_id(m0, order, n - 1, id) { let j = choose|j: int| 0 <= j < n - 1 && holds_id(m0[#[trigger] order[j]], id); assert(0 <= j < n && holds_id(m0[order[j]], id)); }
+            assert(removed_rel2(m0[k], vals[n - 1], id));
+            assert(!keeps[n - 1] ==> vals[n - 1].cnt() == 0);
+        }
+        assert(step_ok(m0, order, vals, keeps, id, n - 1));
+        assert forall|i: int| 0 <= i < n implies #[trigger] step_ok(m0, order, vals, keeps, id, i) by { if i < n - 1 { } }
+    }
+}
+pub proof fn lemma_chain_removed_t<K, T, S: Store<T>>(m0: Map<K, S>, m1: Map<K, S>, s0: Option<RouteRef<T>>, s1: Option<RouteRef<T>>, id: Seq<char>)
+    requires chain(m0, m1, s0, s1, post_rm_t::<K, T, S>(id)), map_wf(m0), map_uniq(m0), s0 is Some ==> !map_holds_id(m0, id),
+    ensures entries_removed(m0, m1, id),
+        map_holds_id(m0, id) ==> (s1 matches Some(x) && rid(*x) == id && map_holds(m0, x)),
+        !map_holds_id(m0, id) ==> s1 == s0,
+{
+    let post = post_rm_t::<K, T, S>(id);
+    let (order, states, vals, keeps) = choose|order: Seq<K>, states: Seq<Option<RouteRef<T>>>, vals: Seq<S>, keeps: Seq<bool>| chain_w(m0, m1, s0, s1, post, order, states, vals, keeps);
+    let n = order.len() as int;
+    assert(one_bucket(m0, id)) by {
+        assert forall|k1: K, k2: K| m0.contains_key(k1) && m0.contains_key(k2) && #[trigger] holds_id(m0[k1], id) && #[trigger] holds_id(m0[k2], id) implies k1 == k2 by {
+            let x = choose|y: RouteRef<T>| #[trigger] m0[k1].holds(y) && rid(*y) == id; let y = choose|y: RouteRef<T>| #[trigger] m0[k2].holds(y) && rid(*y) == id;
+            assert(m0[k1].holds(x) && m0[k2].holds(y));
+        }
+    }
+    lemma_chain_state_t(m0, m1, s0, s1, id, order, states, vals, keeps, n);
+    assert forall|k: K| #[trigger] m1.contains_key(k) implies m0.contains_key(k) && removed_rel2(m0[k], m1[k], id) by {
+        assert(order.contains(k)); let i = choose|i: int| 0 <= i < order.len() && order[i] == k;
+        assert(keeps[i]) by { if !keeps[i] { assert(!m1.contains_key(order[i])); } }
+        assert(m1.contains_key(order[i]) && m1[order[i]] == vals[i]);
+        assert(step_ok(m0, order, vals, keeps, id, i));
+    }
+    assert forall|k: K| m0.contains_key(k) && !#[trigger] m1.contains_key(k) implies exists|v1: S| #[trigger] removed_rel2(m0[k], v1, id) && v1.cnt() == 0 by {
+        assert(order.contains(k)); let i = choose|i: int| 0 <= i < order.len() && order[i] == k;
+        assert(!keeps[i]) by { if keeps[i] { assert(m1.contains_key(order[i])); } }
+        assert(step_ok(m0, order, vals, keeps, id, i));
+    }
+    if map_holds_id(m0, id) {
+        let (k, y) = choose|k: K, y: RouteRef<T>| m0.contains_key(k) && #[trigger] m0[k].holds(y) && rid(*y) == id;
+        assert(order.contains(k)); let i = choose|i: int| 0 <= i < order.len() && order[i] == k;
+        assert(holds_id(m0[order[i]], id)); assert(seen_id(m0, order, n, id));
+    }
+    if seen_id(m0, order, n, id) {
+        let j = choose|j: int| 0 <= j < n && holds_id(m0[#[trigger] order[j]], id);
+        assert(order.contains(order[j])); assert(m0.contains_key(order[j]));
+        let y = choose|y: RouteRef<T>| #[trigger] m0[order[j]].holds(y) && rid(*y) == id;
+        assert(map_holds_id(m0, id));
+    }
+}
 // ================================================================ scheme layer
 //@@ rename HostMatcher Sub
 //@@ item src/router/request_matcher/scheme.rs :: struct SchemeMatcher
@@ -595,11 +766,13 @@ impl<T> SchemeMatcher<T> {
     //@@ fn src/router/request_matcher/scheme.rs :: impl <T>SchemeMatcher<T> / fn remove -> r
     //@| requires old(self).wf(),
     //@| ensures removed_rel(*old(self), *final(self), id@, r),
-    //@| outline `self.schemes.retain(|_, matcher| { if let Some(value) = matcher.remove(id) { removed = Some(value); } !matcher.is_empty() });` => `outl_retain_remove(&mut self.schemes, id, &mut removed);`
+    //@| statelift `self.schemes.retain(|_, matcher|` var `removed` helper `vf_retain_st` header `|_k: &String, matcher: &mut Sub<T>, vf_st: &mut Option<RouteRef<T>>| -> (b: bool) requires old(matcher).wf() ensures ((*old(vf_st)) is Some && *final(matcher) == *old(matcher) && *final(vf_st) == *old(vf_st) && b) || (exists|r: Option<RouteRef<T>>| #[trigger] removed_rel(*old(matcher), *final(matcher), id@, r) && *final(vf_st) == (if r is Some { r } else { *old(vf_st) }) && (!b ==> final(matcher).cnt() == 0))` ghost `Ghost(post_rm_t::<String, T, Sub<T>>(id@))`
+    //@| before `self.schemes.retain(`: let ghost vf_m0 = self.schemes@; let ghost vf_r0 = removed;
+    //@| after `!matcher.is_empty() });`#0: proof { lemma_scheme_map_uniq(*old(self)); lemma_chain_removed_t(vf_m0, self.schemes@, vf_r0, removed, id@); }
     //@| entry broadcast use group_hash_axioms; broadcast use axiom_string_key_model;
     //@|     proof { axiom_string_ext(); }
     //@| before `return removed;`: proof { lemma_scheme_removed_any(*old(self), *self, id@, removed.unwrap()); }
-    //@| before `if removed.is_some() {`#1: proof {
+    //@| after `!matcher.is_empty() });`#0: proof {
     //@|     lemma_scheme_map_uniq(*old(self)); lemma_sub_empty::<T>();
     //@|     lemma_map_removed(old(self).schemes@, self.schemes@, id@, sch_kf::<T>());
     //@|     if removed is Some { let x = removed.unwrap(); let k = choose|k: String| old(self).schemes@.contains_key(k) && #[trigger] old(self).schemes@[k].holds(x); assert(map_holds_id(old(self).schemes@, id@)); }
@@ -938,13 +1111,15 @@ impl<T> HostMatcher<T> {
     //@@ fn src/router/request_matcher/host.rs :: impl <T>HostMatcher<T> / fn remove -> r
     //@| requires old(self).wf(),
     //@| ensures removed_rel(*old(self), *final(self), id@, r),
-    //@| outline `self.static_hosts.retain(|_, matcher| { if let Some(value) = matcher.remove(id) { removed = Some(value); } !matcher.is_empty() });` => `outl_retain_remove(&mut self.static_hosts, id, &mut removed);`
+    //@| statelift `self.static_hosts.retain(|_, matcher|` var `removed` helper `vf_retain_st` header `|_k: &String, matcher: &mut Sub<T>, vf_st: &mut Option<RouteRef<T>>| -> (b: bool) requires old(matcher).wf() ensures ((*old(vf_st)) is Some && *final(matcher) == *old(matcher) && *final(vf_st) == *old(vf_st) && b) || (exists|r: Option<RouteRef<T>>| #[trigger] removed_rel(*old(matcher), *final(matcher), id@, r) && *final(vf_st) == (if r is Some { r } else { *old(vf_st) }) && (!b ==> final(matcher).cnt() == 0))` ghost `Ghost(post_rm_t::<String, T, Sub<T>>(id@))`
+    //@| before `self.static_hosts.retain(`: let ghost vf_m0 = self.static_hosts@; let ghost vf_r0 = removed;
+    //@| after `!matcher.is_empty() });`#0: proof { lemma_host_map_uniq(*old(self)); lemma_chain_removed_t(vf_m0, self.static_hosts@, vf_r0, removed, id@); }
     //@| outline `let removed_in_regex = Cell::new(None); self.regex_tree_rule.retain(&|_, matcher| { if let Some(value) = matcher.remove(id) { removed_in_regex.set(Some(value)); } !matcher.is_empty() }); if removed.is_none() { removed = removed_in_regex.into_inner(); }` => `outl_tree_retain_remove(&mut self.regex_tree_rule, id, &mut removed);`
     //@| closure `|_, matcher|`#1 => `|_k: &str, matcher: &mut Sub<T>| -> (b: bool) requires old(matcher).wf() ensures removed_rel2(*old(matcher), *final(matcher), id@), !b ==> final(matcher).cnt() == 0`
     //@| entry broadcast use group_hash_axioms; broadcast use axiom_string_key_model;
     //@|     proof { axiom_string_ext(); }
     //@| before `return removed;`: proof { lemma_host_removed_any(*old(self), *self, id@, removed.unwrap()); }
-    //@| before `if removed.is_some() {`#1: proof {
+    //@| after `removed = removed_in_regex.into_inner(); }`: proof {
     //@|     let m0 = old(self).static_hosts@; let t0 = old(self).regex_tree_rule.tmap();
     //@|     assert(entries_removed(t0, self.regex_tree_rule.tmap(), id@));
     //@|     lemma_host_map_uniq(*old(self)); lemma_sub_empty::<T>();
@@ -1223,12 +1398,14 @@ impl<T> IpMatcher<T> {
     //@@ fn src/router/request_matcher/ip.rs :: impl <T>IpMatcher<T> / fn remove -> r
     //@| requires old(self).wf(),
     //@| ensures removed_rel(*old(self), *final(self), id@, r),
-    //@| outline `self.matchers.retain(|_, matcher| { if let Some(value) = matcher.remove(id) { removed = Some(value); } !matcher.is_empty() });` => `outl_retain_remove(&mut self.matchers, id, &mut removed);`
+    //@| statelift `self.matchers.retain(|_, matcher|` var `removed` helper `vf_retain_st` header `|_k: &RouteIp, matcher: &mut Sub<T>, vf_st: &mut Option<RouteRef<T>>| -> (b: bool) requires old(matcher).wf() ensures exists|r: Option<RouteRef<T>>| #[trigger] removed_rel(*old(matcher), *final(matcher), id@, r) && *final(vf_st) == (if r is Some { r } else { *old(vf_st) }) && (!b ==> final(matcher).cnt() == 0)` ghost `Ghost(post_rm::<RouteIp, T, Sub<T>>(id@))`
+    //@| before `self.matchers.retain(`: let ghost vf_m0 = self.matchers@; let ghost vf_r0 = removed;
+    //@| after `!matcher.is_empty() });`#0: proof { lemma_chain_removed(vf_m0, self.matchers@, vf_r0, removed, id@); }
     //@| entry broadcast use group_hash_axioms; broadcast use axiom_routeip_key_model;
     //@|     proof { lemma_ip_wf(*self); }
     //@| before `self.count -= 1;`#0: proof { assert(old(self).no_matcher.holds(removed.unwrap())); assert(old(self).sholds(removed.unwrap())); assert(old(self).holds(removed.unwrap())); }
     //@| before `return removed;`: proof { lemma_ip_removed_any(*old(self), *self, id@, removed.unwrap()); }
-    //@| before `if removed.is_some() {`#1: proof { if removed is Some { assert(old(self).sholds(removed.unwrap())); assert(old(self).holds(removed.unwrap())); } }
+    //@| after `!matcher.is_empty() });`#0: proof { if removed is Some { assert(old(self).sholds(removed.unwrap())); assert(old(self).holds(removed.unwrap())); } }
     //@| exit proof { lemma_ip_removed(*old(self), *self, id@, removed); }
 
     //@@ fn src/router/request_matcher/ip.rs :: impl <T>IpMatcher<T> / fn batch_remove -> r
@@ -1370,6 +1547,29 @@ pub proof fn lemma_meth_uniq_bridge<T>(n: MethodMatcher<T>)
     ensures forall|x: RouteRef<T>, y: RouteRef<T>| #[trigger] n.sholds(x) && #[trigger] n.sholds(y) && rid(*x) == rid(*y) ==> x == y,
 {
     assert forall|x: RouteRef<T>, y: RouteRef<T>| #[trigger] n.sholds(x) && #[trigger] n.sholds(y) && rid(*x) == rid(*y) implies x == y by { assert(n.holds(x) && n.holds(y)); }
+}
+#[verifier::external_body] pub proof fn axiom_vecstring_ext() ensures forall|a: Vec<String>, b: Vec<String>| #[trigger] a@ == #[trigger] b@ ==> a == b {}
+// exclusion buckets: an id lives in at most one of them, and never in one of them AND in an inclusion bucket
+pub proof fn lemma_meth_excl_uniq<T>(s: MethodMatcher<T>)
+    requires s.wf(),
+    ensures map_uniq(s.exclude_methods@),
+        forall|x: RouteRef<T>, y: RouteRef<T>| rid(*x) == rid(*y) && #[trigger] map_holds(s.methods@, x) ==> !#[trigger] map_holds(s.exclude_methods@, y),
+{
+    axiom_vecstring_ext();
+    let m = s.exclude_methods@; let kf = excl_kf::<T>();
+    assert forall|k1: Vec<String>, k2: Vec<String>, x: RouteRef<T>, y: RouteRef<T>| m.contains_key(k1) && m.contains_key(k2) && #[trigger] m[k1].holds(x) && #[trigger] m[k2].holds(y) && rid(*x) == rid(*y) implies x == y && k1 == k2 by {
+        assert(map_holds(m, x) && map_holds(m, y)); assert(s.sholds(x) && s.sholds(y)); assert(x == y);
+        assert(kf(k1, x) && kf(k2, y));
+        assert(k1@ == k2@);
+    }
+    assert forall|x: RouteRef<T>, y: RouteRef<T>| rid(*x) == rid(*y) && #[trigger] map_holds(s.methods@, x) implies !#[trigger] map_holds(s.exclude_methods@, y) by {
+        if map_holds(s.exclude_methods@, y) {
+            assert(s.sholds(x) && s.sholds(y)); assert(x == y);
+            let k1 = choose|k1: String| s.methods@.contains_key(k1) && #[trigger] s.methods@[k1].holds(x);
+            let k2 = choose|k2: Vec<String>| m.contains_key(k2) && #[trigger] m[k2].holds(y);
+            assert(meth_kf::<T>()(k1, x)); assert(kf(k2, y));
+        }
+    }
 }
 pub proof fn lemma_meth_wf<T>(s: MethodMatcher<T>)
     requires s.wf(),
@@ -1582,13 +1782,24 @@ impl<T> MethodMatcher<T> {
     //@@ fn src/router/request_matcher/method.rs :: impl <T>MethodMatcher<T> / fn remove -> r
     //@| requires old(self).wf(),
     //@| ensures removed_rel(*old(self), *final(self), id@, r),
-    //@| outline `self.methods.retain(|_, matcher| { if let Some(value) = matcher.remove(id) { removed = Some(value); } !matcher.is_empty() });` => `outl_retain_remove(&mut self.methods, id, &mut removed);`
-    //@| outline `self.exclude_methods.retain(|_, matcher| { if let Some(value) = matcher.remove(id) { removed = Some(value); } !matcher.is_empty() });` => `outl_retain_remove(&mut self.exclude_methods, id, &mut removed);`
+    //@| statelift `self.methods.retain(|_, matcher|` var `removed` helper `vf_retain_st` header `|_k: &String, matcher: &mut Sub<T>, vf_st: &mut Option<RouteRef<T>>| -> (b: bool) requires old(matcher).wf() ensures exists|r: Option<RouteRef<T>>| #[trigger] removed_rel(*old(matcher), *final(matcher), id@, r) && *final(vf_st) == (if r is Some { r } else { *old(vf_st) }) && (!b ==> final(matcher).cnt() == 0)` ghost `Ghost(post_rm::<String, T, Sub<T>>(id@))`
+    //@| statelift `self.exclude_methods.retain(|_, matcher|` var `removed` helper `vf_retain_st` header `|_k: &Vec<String>, matcher: &mut Sub<T>, vf_st: &mut Option<RouteRef<T>>| -> (b: bool) requires old(matcher).wf() ensures ((*old(vf_st)) is Some && *final(matcher) == *old(matcher) && *final(vf_st) == *old(vf_st) && b) || (exists|r: Option<RouteRef<T>>| #[trigger] removed_rel(*old(matcher), *final(matcher), id@, r) && *final(vf_st) == (if r is Some { r } else { *old(vf_st) }) && (!b ==> final(matcher).cnt() == 0))` ghost `Ghost(post_rm_t::<Vec<String>, T, Sub<T>>(id@))`
     //@| entry broadcast use group_hash_axioms; broadcast use axiom_string_key_model; broadcast use axiom_vecstring_key_model;
     //@|     proof { lemma_meth_wf(*self); }
+    //@| before `self.methods.retain(`: let ghost vf_m0 = self.methods@; let ghost vf_r0 = removed;
+    //@| after `!matcher.is_empty() });`#0: proof { lemma_chain_removed(vf_m0, self.methods@, vf_r0, removed, id@); }
+    //@| before `self.exclude_methods.retain(`: let ghost vf_m1 = self.exclude_methods@; let ghost vf_r1 = removed;
+    //@| after `!matcher.is_empty() });`#1: proof {
+    //@|     lemma_meth_excl_uniq(*old(self));
+    //@|     if vf_r1 is Some && map_holds_id(vf_m1, id@) {
+    //@|         let (k, y) = choose|k: Vec<String>, y: RouteRef<T>| vf_m1.contains_key(k) && #[trigger] vf_m1[k].holds(y) && rid(*y) == id@;
+    //@|         assert(map_holds(vf_m1, y)); assert(map_holds_id(vf_m0, id@)); assert(map_holds(vf_m0, vf_r1.unwrap()));
+    //@|     }
+    //@|     lemma_chain_removed_t(vf_m1, self.exclude_methods@, vf_r1, removed, id@);
+    //@| }
     //@| before `self.count -= 1;`#0: proof { assert(old(self).any_method.holds(removed.unwrap())); assert(old(self).sholds(removed.unwrap())); assert(old(self).holds(removed.unwrap())); }
     //@| before `return removed;`: proof { lemma_meth_removed_any(*old(self), *self, id@, removed.unwrap()); }
-    //@| before `if removed.is_some() {`#1: proof { if removed is Some { assert(old(self).sholds(removed.unwrap())); assert(old(self).holds(removed.unwrap())); } }
+    //@| after `!matcher.is_empty() });`#1: proof { if removed is Some { assert(old(self).sholds(removed.unwrap())); assert(old(self).holds(removed.unwrap())); } }
     //@| exit proof { lemma_meth_removed(*old(self), *self, id@, removed); }
 
     //@@ fn src/router/request_matcher/method.rs :: impl <T>MethodMatcher<T> / fn batch_remove -> r
@@ -1697,6 +1908,20 @@ pub proof fn lemma_hdr_uniq_bridge<T>(n: HeaderMatcher<T>)
 {
     assert forall|x: RouteRef<T>, y: RouteRef<T>| #[trigger] n.sholds(x) && #[trigger] n.sholds(y) && rid(*x) == rid(*y) implies x == y by { assert(n.holds(x) && n.holds(y)); }
 }
+// ASSUMED (trusted, listed): a BTreeSet / a Vec<String> is determined by its view (structural equality of the std collections)
+#[verifier::external_body] pub proof fn axiom_btreeset_ext<E>() ensures forall|a: BTreeSet<E>, b: BTreeSet<E>| #[trigger] a@ == #[trigger] b@ ==> a == b {}
+pub proof fn lemma_hdr_map_uniq<T>(s: HeaderMatcher<T>)
+    requires s.wf(),
+    ensures map_uniq(s.condition_groups@),
+{
+    axiom_btreeset_ext::<HeaderCondition>();
+    let m = s.condition_groups@; let kf = hdr_kf::<T>();
+    assert forall|k1: BTreeSet<HeaderCondition>, k2: BTreeSet<HeaderCondition>, x: RouteRef<T>, y: RouteRef<T>| m.contains_key(k1) && m.contains_key(k2) && #[trigger] m[k1].holds(x) && #[trigger] m[k2].holds(y) && rid(*x) == rid(*y) implies x == y && k1 == k2 by {
+        assert(map_holds(m, x) && map_holds(m, y)); assert(s.sholds(x) && s.sholds(y)); assert(x == y);
+        assert(kf(k1, x) && kf(k2, y));
+        assert(k1@ =~= k2@);
+    }
+}
 pub proof fn lemma_hdr_wf<T>(s: HeaderMatcher<T>)
     requires s.wf(),
     ensures uniq(s), s.cnt() == 0 ==> forall|x: RouteRef<T>| !s.holds(x), s.cnt() <= usize::MAX,
@@ -1749,17 +1974,13 @@ pub assume_specification<K: std::cmp::Ord, V, A: std::alloc::Allocator + Clone, 
     ensures
         forall|k: K| #[trigger] final(m)@.contains_key(k) ==> old(m)@.contains_key(k) && exists|v: &mut V| *v == old(m)@[k] && *final(v) == final(m)@[k] && #[trigger] f.ensures((&k, v), true),
         forall|k: K| old(m)@.contains_key(k) && !#[trigger] final(m)@.contains_key(k) ==> exists|v: &mut V| *v == old(m)@[k] && #[trigger] f.ensures((&k, v), false);
-// R8 outline, ASSUMED contract: the retain-with-captured-assignment statement on a BTreeMap of buckets (same summary as outl_retain_remove)
+// R13 helper for BTreeMap (same ASSUMED visiting contract as vf_retain_st)
 #[verifier::external_body]
-pub fn outl_btree_retain_remove<K, T>(m: &mut BTreeMap<K, Sub<T>>, id: &str, removed: &mut Option<RouteRef<T>>)
-    requires map_wf(old(m)@),
-    ensures entries_removed(old(m)@, final(m)@, id@),
-        map_holds_id(old(m)@, id@) ==> (*final(removed) matches Some(x) && rid(*x) == id@ && map_holds(old(m)@, x)),
-        !map_holds_id(old(m)@, id@) ==> *final(removed) == *old(removed),
-{
-    /* verbatim: self.condition_groups.retain(|_, matcher| { if let Some(value) = matcher.remove(id) { removed = Some(value); } !matcher.is_empty() }); */
-    unimplemented!()
-}
+pub fn vf_retain_st_bt<K: std::cmp::Ord, V, St, F: FnMut(&K, &mut V, &mut St) -> bool>(m: &mut BTreeMap<K, V>, st: &mut St, f: F, post: Ghost<spec_fn(K, V, V, St, St, bool) -> bool>)
+    requires forall|k: &K, v: &mut V, s: &mut St| old(m)@.contains_key(*k) && *v == old(m)@[*k] ==> #[trigger] f.requires((k, v, s)),
+        forall|k: &K, v: &mut V, s: &mut St, b: bool| old(m)@.contains_key(*k) && *v == old(m)@[*k] && #[trigger] f.ensures((k, v, s), b) ==> post@(*k, *v, *final(v), *s, *final(s), b),
+    ensures chain(old(m)@, final(m)@, *old(st), *final(st), post@),
+{ /* verbatim: RECV.retain(|k, v| f(k, v, &mut VAR)) */ let mut f = f; m.retain(|k, v| f(k, v, st)) }
 pub proof fn lemma_hdr_removed_any<T>(o: HeaderMatcher<T>, n: HeaderMatcher<T>, id: Seq<char>, x0: RouteRef<T>)
     requires o.wf(), n.condition_groups@ == o.condition_groups@, removed_rel(o.any_header, n.any_header, id, Some(x0)), n.count + 1 == o.count,
     ensures removed_rel(o, n, id, Some(x0)),
@@ -1902,12 +2123,14 @@ impl<T> HeaderMatcher<T> {
     //@@ fn src/router/request_matcher/header.rs :: impl <T>HeaderMatcher<T> / fn remove -> r
     //@| requires old(self).wf(),
     //@| ensures removed_rel(*old(self), *final(self), id@, r),
-    //@| outline `self.condition_groups.retain(|_, matcher| { if let Some(value) = matcher.remove(id) { removed = Some(value); } !matcher.is_empty() });` => `outl_btree_retain_remove(&mut self.condition_groups, id, &mut removed);`
+    //@| statelift `self.condition_groups.retain(|_, matcher|` var `removed` helper `vf_retain_st_bt` header `|_k: &BTreeSet<HeaderCondition>, matcher: &mut Sub<T>, vf_st: &mut Option<RouteRef<T>>| -> (b: bool) requires old(matcher).wf() ensures ((*old(vf_st)) is Some && *final(matcher) == *old(matcher) && *final(vf_st) == *old(vf_st) && b) || (exists|r: Option<RouteRef<T>>| #[trigger] removed_rel(*old(matcher), *final(matcher), id@, r) && *final(vf_st) == (if r is Some { r } else { *old(vf_st) }) && (!b ==> final(matcher).cnt() == 0))` ghost `Ghost(post_rm_t::<BTreeSet<HeaderCondition>, T, Sub<T>>(id@))`
+    //@| before `self.condition_groups.retain(`: let ghost vf_m0 = self.condition_groups@; let ghost vf_r0 = removed;
+    //@| after `!matcher.is_empty() });`#0: proof { lemma_hdr_map_uniq(*old(self)); lemma_chain_removed_t(vf_m0, self.condition_groups@, vf_r0, removed, id@); }
     //@| entry broadcast use vstd::std_specs::btree::group_btree_axioms; broadcast use axiom_hc_key; broadcast use axiom_hcset_key;
     //@|     proof { lemma_hdr_wf(*self); }
     //@| before `self.count -= 1;`#0: proof { assert(old(self).any_header.holds(removed.unwrap())); assert(old(self).sholds(removed.unwrap())); assert(old(self).holds(removed.unwrap())); }
     //@| before `return removed;`: proof { lemma_hdr_removed_any(*old(self), *self, id@, removed.unwrap()); }
-    //@| before `if removed.is_some() {`#1: proof { if removed is Some { assert(old(self).sholds(removed.unwrap())); assert(old(self).holds(removed.unwrap())); } }
+    //@| after `!matcher.is_empty() });`#0: proof { if removed is Some { assert(old(self).sholds(removed.unwrap())); assert(old(self).holds(removed.unwrap())); } }
     //@| exit proof { lemma_hdr_removed(*old(self), *self, id@, removed); }
 
     //@@ fn src/router/request_matcher/header.rs :: impl <T>HeaderMatcher<T> / fn batch_remove -> r
@@ -1986,6 +2209,18 @@ pub proof fn lemma_dt_uniq_bridge<T>(n: DateTimeMatcher<T>)
     ensures forall|x: RouteRef<T>, y: RouteRef<T>| #[trigger] n.sholds(x) && #[trigger] n.sholds(y) && rid(*x) == rid(*y) ==> x == y,
 {
     assert forall|x: RouteRef<T>, y: RouteRef<T>| #[trigger] n.sholds(x) && #[trigger] n.sholds(y) && rid(*x) == rid(*y) implies x == y by { assert(n.holds(x) && n.holds(y)); }
+}
+pub proof fn lemma_dt_map_uniq<T>(s: DateTimeMatcher<T>)
+    requires s.wf(),
+    ensures map_uniq(s.condition_groups@),
+{
+    axiom_btreeset_ext::<DateTimeCondition>();
+    let m = s.condition_groups@; let kf = dt_kf::<T>();
+    assert forall|k1: BTreeSet<DateTimeCondition>, k2: BTreeSet<DateTimeCondition>, x: RouteRef<T>, y: RouteRef<T>| m.contains_key(k1) && m.contains_key(k2) && #[trigger] m[k1].holds(x) && #[trigger] m[k2].holds(y) && rid(*x) == rid(*y) implies x == y && k1 == k2 by {
+        assert(map_holds(m, x) && map_holds(m, y)); assert(s.sholds(x) && s.sholds(y)); assert(x == y);
+        assert(kf(k1, x) && kf(k2, y));
+        assert(k1@ =~= k2@);
+    }
 }
 pub proof fn lemma_dt_wf<T>(s: DateTimeMatcher<T>)
     requires s.wf(),
@@ -2154,12 +2389,14 @@ impl<T> DateTimeMatcher<T> {
     //@@ fn src/router/request_matcher/datetime.rs :: impl <T>DateTimeMatcher<T> / fn remove -> r
     //@| requires old(self).wf(),
     //@| ensures removed_rel(*old(self), *final(self), id@, r),
-    //@| outline `self.condition_groups.retain(|_, matcher| { if let Some(value) = matcher.remove(id) { removed = Some(value); } !matcher.is_empty() });` => `outl_btree_retain_remove(&mut self.condition_groups, id, &mut removed);`
+    //@| statelift `self.condition_groups.retain(|_, matcher|` var `removed` helper `vf_retain_st_bt` header `|_k: &BTreeSet<DateTimeCondition>, matcher: &mut Sub<T>, vf_st: &mut Option<RouteRef<T>>| -> (b: bool) requires old(matcher).wf() ensures ((*old(vf_st)) is Some && *final(matcher) == *old(matcher) && *final(vf_st) == *old(vf_st) && b) || (exists|r: Option<RouteRef<T>>| #[trigger] removed_rel(*old(matcher), *final(matcher), id@, r) && *final(vf_st) == (if r is Some { r } else { *old(vf_st) }) && (!b ==> final(matcher).cnt() == 0))` ghost `Ghost(post_rm_t::<BTreeSet<DateTimeCondition>, T, Sub<T>>(id@))`
+    //@| before `self.condition_groups.retain(`: let ghost vf_m0 = self.condition_groups@; let ghost vf_r0 = removed;
+    //@| after `!matcher.is_empty() });`#0: proof { lemma_dt_map_uniq(*old(self)); lemma_chain_removed_t(vf_m0, self.condition_groups@, vf_r0, removed, id@); }
     //@| entry broadcast use vstd::std_specs::btree::group_btree_axioms; broadcast use axiom_dtc_key; broadcast use axiom_dtcset_key;
     //@|     proof { lemma_dt_wf(*self); }
     //@| before `self.count -= 1;`#0: proof { assert(old(self).any_datetime.holds(removed.unwrap())); assert(old(self).sholds(removed.unwrap())); assert(old(self).holds(removed.unwrap())); }
     //@| before `return removed;`: proof { lemma_dt_removed_any(*old(self), *self, id@, removed.unwrap()); }
-    //@| before `if removed.is_some() {`#1: proof { if removed is Some { assert(old(self).sholds(removed.unwrap())); assert(old(self).holds(removed.unwrap())); } }
+    //@| after `!matcher.is_empty() });`#0: proof { if removed is Some { assert(old(self).sholds(removed.unwrap())); assert(old(self).holds(removed.unwrap())); } }
     //@| exit proof { lemma_dt_removed(*old(self), *self, id@, removed); }
 
     //@@ fn src/router/request_matcher/datetime.rs :: impl <T>DateTimeMatcher<T> / fn batch_remove -> r
